@@ -91,6 +91,8 @@ func runC13(env *lib.Env, rep *lib.Report) {
 		// a statement refused half way: whatever it does about the rows it has already changed, it must not let them
 		// reach the data file ahead of log records it writes later
 		{"update-refused-at-third-row", "c14:t4k3", []string{"update-refused-at-third-row"}, 2, 0, false, true},
+		// the CREATE TABLE that makes the page table grow a level (its seventh user table)
+		{"create/7th-table", "six-tables", []string{"create"}, 2, 0, false, false},
 	}
 	if env.Thorough() {
 		bound = 3
